@@ -1,2 +1,3 @@
 import Generated.FileConsts
 import Generated.LpLabels
+import Generated.Vartype
